@@ -1088,3 +1088,39 @@ STR_TYS = ('std::string::String', '&std::string::String', '&str', '&mut std::str
 def is_str_ty(ty):
     """an owned or borrowed string (a parameter changed from String to &str is the same anchor)"""
     return ty in STR_TYS
+
+
+def deep_field_roots(prog, body, operand, depth=0, _seen=None):
+    """origins of `operand` followed UP the call chain: a parameter is replaced by the matching argument of every call site of the
+    function, a capture of a closure / of the coroutine of an async fn by the operand it was built from in the parent.  Returns the
+    set of (adt, field) pairs of named struct fields the value can come from (other roots are dropped)."""
+    from .effects import last_named_field
+    _seen = _seen if _seen is not None else set()
+    out = set()
+    if depth > 6:
+        return out
+    for r in origins(body, operand):
+        lf = last_named_field(r[-1]) if r[-1] else None
+        if lf:
+            out.add((lf[0], lf[1]))
+            continue
+        if r[0] == 'param':
+            key = (body.id, 'p', r[1])
+            if key in _seen:
+                continue
+            _seen.add(key)
+            for cb, cbi in prog.callers().get(body.id, []):
+                t = cb.term(cbi)
+                if r[1] - 1 < len(t['args']):
+                    out |= deep_field_roots(prog, cb, t['args'][r[1] - 1], depth + 1, _seen)
+        elif r[0] == 'capture':
+            key = (body.id, 'c', r[1])
+            if key in _seen:
+                continue
+            _seen.add(key)
+            site = prog.closure_sites().get(body.id)
+            if site is not None:
+                pb, bi, si, ops = site
+                if r[1] < len(ops):
+                    out |= deep_field_roots(prog, pb, ops[r[1]], depth + 1, _seen)
+    return out
